@@ -41,6 +41,12 @@ FAMILIES = {
     'val.plan': dict(module='MC_Val', fam='plan', walker='val-walk', scale='1',
                      invariants=[], properties=['P_ValSet', 'P_Plan', 'P_NoEffectOnReject'],
                      failcap=dict(quick=1, thorough=2), timeout=dict(quick=300, thorough=2400)),
+    # ---- formats / purity (C17): enumeration of a TLA+-defined function and replay --------------
+    'fmt.formats': dict(kind='formats', module='MC_Formats', sm_module='SliceMem',
+                        consts=dict(quick=dict(MaxTree=9, MaxProof=6, NItems=3, rounds=60), thorough=dict(MaxTree=16, MaxProof=8, NItems=4, rounds=1500)),
+                        invariants=['Pure', 'LayoutFree'], properties=[], timeout=dict(quick=300, thorough=1800)),
+    # ---- mempool admission (C20): enumeration of TLA+-defined decision functions and replay ----
+    'ante.cases': dict(kind='cases', module='MC_Ante', checker='ante-check', invariants=[], properties=[], timeout=dict(quick=300, thorough=2400)),
 }
 
 # property -> engines.  `floor`: minimum counts below which the run is considered vacuous (exit 2).
@@ -58,5 +64,7 @@ PROPERTIES = {
     'C13': dict(families=['val.valset'], title='validator set equals what the engine was told'),
     'C14': dict(families=['val.plan'], title='executor change plan'),
     'C16': dict(families=['l1.ledger', 'l2.deposit', 'val.valset'], title='genesis round trip'),
+    'C17': dict(families=['fmt.formats'], title='commitment formats and purity'),
+    'C20': dict(families=['ante.cases'], title='mempool admission'),
     'C19': dict(families=['l1.perm'], title='permissioned IBC channel admin'),
 }
